@@ -142,6 +142,20 @@ func genRule(r *core.Rand, idx int, m c16Method) RuleSpec {
 	r.Intn(1)
 	tmpl := "/r" + strconv.Itoa(idx) // pairwise distinct literal first segments
 	path := tmpl
+	if r.Chance(1, 4) {
+		// ... or below a variable node that annotated routes of the test
+		// services already occupy (the trie keys a variable by its pattern, so
+		// "*" shares the node of {message_id}, {filename}, ...); kept apart
+		// from everything else by a distinct literal right after it
+		pre := [][2]string{
+			{"/v1/messages/*", "/v1/messages/m7"},
+			{"/files/*", "/files/f7"},
+			{"/v1/users/*", "/v1/users/u7"},
+			{"/v1/*", "/v1/z7"},
+		}[r.Intn(4)]
+		tmpl = pre[0] + "/x" + strconv.Itoa(idx)
+		path = pre[1] + "/x" + strconv.Itoa(idx)
+	}
 	used := map[string]bool{}
 	nseg := r.Intn(4)
 	for s := 0; s < nseg; s++ {
@@ -244,13 +258,32 @@ func mutate(r *core.Rand, rule RuleSpec, m c16Method) RuleSpec {
 		rule.Template += "/{no_such_field}"
 		rule.Invalid = "unknown-field"
 	case 5:
+		// a field path that continues through a scalar: towards an unknown
+		// name, or towards the name of a sibling field of the same message
 		md := methodDesc(m.Service, m.Name)
-		for _, f := range bindable(md.Input(), "", 0) {
-			if f.Kind == protoreflect.StringKind {
-				rule.Template += "/{" + f.Path + ".inner}"
-				rule.Invalid = "field-path-through-scalar"
-				return rule
+		scalars := bindable(md.Input(), "", 0)
+		if len(scalars) > 0 {
+			f := scalars[r.Intn(len(scalars))]
+			next := "inner"
+			if r.Chance(2, 3) {
+				next = scalars[r.Intn(len(scalars))].Path // a sibling (or the field itself)
 			}
+			switch r.Intn(3) {
+			case 0:
+				rule.Template += "/{" + f.Path + "." + next + "}"
+			case 1:
+				rule.Verb, rule.Body = "post", f.Path+"."+next
+			case 2:
+				out := bindable(md.Output(), "", 0)
+				if len(out) == 0 {
+					rule.Template += "/{" + f.Path + "." + next + "}"
+				} else {
+					o := out[r.Intn(len(out))]
+					rule.RespBody = o.Path + "." + out[r.Intn(len(out))].Path
+				}
+			}
+			rule.Invalid = "field-path-through-scalar"
+			return rule
 		}
 		rule.Template += "/{no.such}"
 		rule.Invalid = "unknown-field"
